@@ -8,6 +8,7 @@ import HappyProofs.C14.TxnMain
 import HappyProofs.C14.TxnLsm
 import HappyProofs.C14.StoreTrace
 import HappyProofs.C14.TxnTrace
+import HappyProofs.C14.TxnTraceSide
 /-!
 # C14 — property theorems (LSM tree as a map)
 
